@@ -10,6 +10,7 @@ func init() {
 	verifRegister("VerifC06_EHandlers", VerifC06_EHandlers)
 	verifRegister("VerifC06_ERethrowOutside", VerifC06_ERethrowOutside)
 	verifRegister("VerifC06_KIsPanic", VerifC06_KIsPanic)
+	verifRegister("VerifC06_EHandlerKinds", VerifC06_EHandlerKinds)
 }
 
 // ---- program generator and reference model
@@ -335,5 +336,46 @@ func VerifC06_KIsPanic() {
 	vAssert(lisp.IsInternalPanic(v) == want, "IsInternalPanic iff named internal-panic and carrying a non-empty recovered Go stack")
 	notErr := lisp.Int(3)
 	vAssert(!lisp.IsInternalPanic(notErr), "non-errors are never internal panics")
+	vCover("end")
+}
+
+
+// The handler is CALLED WITH the condition name and the error's data whatever kind of callable it
+// is: a lambda, a builtin function, a user function, a special operator (progn, and) or a macro all
+// receive the data VALUES -- a datum that happens to be a symbol or a list is not evaluated a second
+// time on its way into an operator or macro handler.  The reference is the lambda handler.
+func VerifC06_EHandlerKinds() {
+	handlers := []string{
+		"(lambda (c &rest xs) (car xs))",
+		"progn",
+		"and",
+		"hmac",
+		"hfun",
+		"(progn hfun)",
+		"second-of",
+	}
+	data := []string{"d", "(car '(a b))", "(car '((+ 1 2)))", "\"s\"", "(car '(unbound-sym))", "(list 'a (list 'b))", "(car '('q))"}
+	hi := vConcInt(vndChoice("handler", len(handlers)))
+	di := vConcInt(vndChoice("data", len(data)))
+	d := vndInt("d")
+	run := func(h string) *lisp.LVal {
+		env := newEnv(nil)
+		env.PutGlobal(lisp.Symbol("d"), lisp.Int(d))
+		env.PutGlobal(lisp.Symbol("a"), lisp.Int(42))
+		r := env.LoadString("defs", "(defmacro hmac (c &rest xs) (quasiquote (car (list (unquote-splicing xs))))) (defun hfun (c &rest xs) (car xs)) (defmacro second-of (&rest all) (quasiquote (progn (unquote (car (cdr all))))))")
+		vAssert(r.Type != lisp.LError, "definitions load")
+		return env.LoadString("p", "(handler-bind ((condition "+h+")) (error 'my-cond "+data[di]+"))")
+	}
+	want := run(handlers[0])
+	got := run(handlers[hi])
+	vObserve("case", handlers[hi]+" on "+data[di])
+	vAssert(want.Type != lisp.LError, "the lambda handler returns the datum: "+outcome(want))
+	vAssert(got.Type != lisp.LError, "so does every other kind of handler: "+handlers[hi]+" gave "+outcome(got))
+	// compared with equal? (a quoted and an unquoted spelling of one symbol are the same value)
+	env := newEnv(nil)
+	env.PutGlobal(lisp.Symbol("x"), want)
+	env.PutGlobal(lisp.Symbol("y"), got)
+	same := env.LoadString("cmp", "(equal? x y)")
+	vAssert(same.Type == lisp.LSymbol && lisp.True(same), "every kind of handler receives the datum itself: "+handlers[hi]+" gave "+outcome(got)+", the lambda handler "+outcome(want))
 	vCover("end")
 }
